@@ -60,8 +60,12 @@ def base(draw, max_dims=4, min_side=1, max_side=9, dtypes=DTYPES):
         "dtype": draw(st.sampled_from(dtypes)),
         "seed": draw(st.integers(0, 10**6)),
         "cls": draw(st.sampled_from(DS_CLASSES[nd])),
-        "origin": [draw(st.sampled_from([0.0, 1.5, -3.0, 10.25])) for _ in range(nd)],
-        "sampling": [draw(st.sampled_from([1.0, 0.5, 2.0, 0.125, 3.0])) for _ in range(nd)],
+        # calibration at very different unit scales (SI metres ~1e-10 ... detector counts ~1e9): nothing in
+        # the laws depends on the unit
+        **(lambda sc: {
+            "origin": [draw(st.sampled_from([0.0, 1.5, -3.0, 10.25])) * sc for _ in range(nd)],
+            "sampling": [draw(st.sampled_from([1.0, 0.5, 2.0, 0.125, 3.0])) * sc for _ in range(nd)],
+        })(draw(st.sampled_from([1.0, 1.0, 1.0, 1e-10, 2e-7, 1e3, 1e9]))),
         "in_place": draw(st.booleans()),
     }
 
@@ -129,7 +133,16 @@ def resample_cases(draw):
 def padcrop_cases(draw):
     c = draw(base(max_side=6))
     out = [n + draw(st.integers(0, 7)) for n in c["shape"]]
-    c.update(kind="padcrop", out=out, mode=draw(st.sampled_from(PAD_MODES)), crop_in_place=draw(st.booleans()), stop_form=draw(st.sampled_from(["index", "zero_if_end", "negative"])))
+    nd = len(c["shape"])
+    # crop either all axes at once (axes=None) or axis by axis / in groups, axes given explicitly in a drawn order
+    order = draw(st.permutations(list(range(nd))))
+    groups, i = [], 0
+    while i < nd:
+        k = draw(st.integers(1, nd - i))
+        groups.append(list(order[i : i + k]))
+        i += k
+    c.update(kind="padcrop", out=out, mode=draw(st.sampled_from(PAD_MODES)), crop_in_place=draw(st.booleans()), stop_form=draw(st.sampled_from(["index", "zero_if_end", "negative"])),
+             crop_groups=draw(st.sampled_from([None, None, groups])), axes_int=draw(st.booleans()))
     return c
 
 
@@ -166,7 +179,9 @@ def _meta(case, ds, origin, sampling, what, tol=1e-12):
     for name, got, exp in (("origin", ds.origin, origin), ("sampling", ds.sampling, sampling)):
         g = np.asarray(got, dtype=float)
         e = np.asarray(exp, dtype=float)
-        if g.shape != e.shape or np.max(np.abs(g - e), initial=0.0) > tol * max(1.0, float(np.max(np.abs(e), initial=0.0))):
+        scale = float(np.max(np.abs(np.asarray(case.get("sampling", [1.0]), dtype=float)))) * max(case.get("shape", [1])) if isinstance(case, dict) else 1.0
+        scale = max(scale, float(np.max(np.abs(e), initial=0.0)), 1e-300)
+        if g.shape != e.shape or np.max(np.abs(g - e), initial=0.0) > max(tol, 1e-9) * scale:
             raise core.Violation("%s: %s = %s, expected %s" % (what, name, g.tolist(), e.tolist()), case)
 
 
@@ -259,7 +274,7 @@ def _check_bin(ctx, case, ds, arr, classes):
         for j in range(nb):
             old = np.mean([case["origin"][a] + (j * f + i) * case["sampling"][a] for i in range(f)])
             new = float(out.origin[a]) + j * float(out.sampling[a])
-            if abs(old - new) > 1e-9 * max(1.0, abs(old)):
+            if abs(old - new) > 1e-9 * max(abs(old), abs(case["sampling"][a]) * arr.shape[a]):
                 raise core.Violation("bin: block %d on axis %d sits at %r, its pixels' mean coordinate is %r" % (j, a, new, old), case)
     # counts over the covered region are conserved (sum reducer)
     if red == "sum" and out.array.size:
@@ -319,7 +334,7 @@ def _check_resample(ctx, case, ds, arr, classes):
         c_old = case["origin"][a] + (arr.shape[a] - 1) / 2 * case["sampling"][a]
         c_new = float(res.origin[a]) + (y.shape[a] - 1) / 2 * float(res.sampling[a])
         e_old, e_new = arr.shape[a] * case["sampling"][a], y.shape[a] * float(res.sampling[a])
-        if abs(c_old - c_new) > 1e-9 * max(1, abs(c_old)) or abs(e_old - e_new) > 1e-9 * e_old:
+        if abs(c_old - c_new) > 1e-9 * max(abs(c_old), e_old) or abs(e_old - e_new) > 1e-9 * e_old:
             raise core.Violation("fourier_resample: centre/extent on axis %d: (%r, %r) -> (%r, %r)" % (a, c_old, e_old, c_new, e_new), case)
     if not up and not down:
         if np.max(np.abs(y - x)) > 10 * tol * scale:
@@ -380,7 +395,15 @@ def _check_padcrop(ctx, case, ds, arr, classes):
         elif case["stop_form"] == "negative" and stop < m:
             stop = stop - m
         cw.append((b, stop))
-    cropped = _apply(ctx, case, padded, "crop", case["crop_in_place"], crop_widths=tuple(cw))
+    if case.get("crop_groups"):
+        cropped = padded
+        for g in case["crop_groups"]:
+            ax = g[0] if (len(g) == 1 and case.get("axes_int")) else tuple(g)
+            cropped = _apply(ctx, case, cropped, "crop", case["crop_in_place"], crop_widths=tuple(cw[a] for a in g), axes=ax)
+        classes_extra = "crop_by_axis_groups"
+        ctx.count(classes_extra)
+    else:
+        cropped = _apply(ctx, case, padded, "crop", case["crop_in_place"], crop_widths=tuple(cw))
     if cropped.array.shape != arr.shape or cropped.array.dtype != arr.dtype or cropped.array.tobytes() != np.ascontiguousarray(arr).tobytes():
         raise core.Violation("crop(pad(x, output_shape)) != x (shape %s dtype %s; expected %s %s)" % (cropped.array.shape, cropped.array.dtype, arr.shape, arr.dtype), case)
     _meta(case, cropped, case["origin"], case["sampling"], "crop(pad(x))")
